@@ -2208,4 +2208,203 @@ theorem gen_account (env : VEnv) (cr : Crypto) (opq : V2.Opq) (ok : OpqOk env cr
   v2_accountClaimsValidate env cr opq (v2_infoValidate env opq ok.url) ok.atoi ok.acct ok.user ok.curve ok.toSub ok.dec
     c vr0 now
 
+/-! ## C01 / C02: the decision logic of `Decode`, as translated
+
+`parseHeaders`, `decodeString`, `loadClaims` and the interface method `verify` stay outside the translation (fields of
+`Opq`); what is translated, and proved here, is everything `Decode` itself decides: three chunks, the order of the
+steps, *which text* the signature is checked over (by the version `loadClaims` reports, with the exception for generic
+claims), and the issuer-role loop over `ExpectedPrefixes()`. -/
+
+theorem encode_append (a b : Str) : Utf8.encode (a ++ b) = Utf8.encode a ++ Utf8.encode b := by
+  simp [Utf8.encode]
+
+/-- `s[:len(a)]` of `s = a ++ b` is `a` (byte offsets fall on a character boundary) -/
+theorem strSliceTo_prefix (a b : Str) : strSliceTo (a ++ b) (strLen a) = some a := by
+  have hl : (Utf8.encode a).length = utf8Len a := (utf8Len_eq a).symm
+  have hsl : slice (Utf8.encode (a ++ b)) 0 (strLen a) = some (Utf8.encode a) := by
+    unfold slice strLen
+    have h1 : (0 : Int) ≤ 0 ∧ (0 : Int) ≤ (utf8Len a : Int) ∧ (utf8Len a : Int) ≤ len (Utf8.encode (a ++ b)) := by
+      refine ⟨by omega, by omega, ?_⟩
+      simp only [len, encode_append, List.length_append, hl]; omega
+    rw [if_pos h1]
+    simp only [Int.toNat_natCast, Int.toNat_zero, List.drop_zero, encode_append, ← hl, List.take_left']
+  unfold strSliceTo strSlice
+  rw [hsl]
+  exact Utf8.decode_encode a
+
+theorem token_of_chunks (tok hd p s : Str) (h : splitOn '.' tok = [hd, p, s]) : tok = (hd ++ '.' :: p) ++ '.' :: s := by
+  have := join_splitOn '.' tok
+  rw [h] at this
+  simp [join] at this
+  simp [← this]
+
+/-- one arm of the `switch p` in `Decode`'s prefix loop: the nkeys prefix byte and the validator it selects -/
+def prefixOk (opq : V2.Opq) (issuer : Str) (p : Int) : Bool :=
+  (p == 0 && opq.nkeys_IsValidPublicAccountKey issuer) || (p == 112 && opq.nkeys_IsValidPublicOperatorKey issuer) ||
+  (p == 160 && opq.nkeys_IsValidPublicUserKey issuer) || (p == 104 && opq.nkeys_IsValidPublicServerKey issuer)
+
+theorem decode_loop (issuer : Str) (opq : V2.Opq) (ps : List Int) (i : Int) (ok : Bool) :
+    forRangeFrom (V2.Decode.loop1 issuer opq) i ps ok = some (.done (ok || ps.any (prefixOk opq issuer))) := by
+  have hb : ∀ (i : Int) (p : Int) (ok : Bool),
+      V2.Decode.loop1 issuer opq i p ok = some (.next (ok || prefixOk opq issuer p)) := by
+    intro i p ok
+    unfold V2.Decode.loop1 prefixOk
+    by_cases h0 : p = 0
+    · subst h0; cases opq.nkeys_IsValidPublicAccountKey issuer <;> simp
+    · by_cases h1 : p = 112
+      · subst h1; cases opq.nkeys_IsValidPublicOperatorKey issuer <;> simp
+      · by_cases h2 : p = 160
+        · subst h2; cases opq.nkeys_IsValidPublicUserKey issuer <;> simp
+        · by_cases h3 : p = 104
+          · subst h3; cases opq.nkeys_IsValidPublicServerKey issuer <;> simp
+          · simp [h0, h1, h2, h3]
+  rw [forRangeFrom_fold _ _ hb]
+  congr 2
+  induction ps generalizing ok with
+  | nil => simp
+  | cons p ps ih => simp [ih, Bool.or_assoc]
+
+/-- the version `Decode` judges the signed text by: what `loadClaims` reported, except that generic claims under any
+header algorithm other than the legacy one count as version 2 -/
+def verUsed (c : V2.I_Claims) (hdr : Option V2.T_Header) (ver : Int) : Int :=
+  match c, hdr with
+  | .GenericClaims _, some h => if h.f_Algorithm != "ed25519".toList then 2 else ver
+  | _, _ => ver
+
+/-- **`Decode` accepts only authentic tokens (translated code).** If the translated `Decode` returns claims `c`
+without an error, then the token had exactly three chunks `hd.p.s`; header, payload and signature decoded without
+error; `c` is what `loadClaims` returned for the payload; the claim's own `verify` accepted the signature over `p`
+(reported version ≤ 1) or over `hd.p` (otherwise) — never over anything else; and if the claim type expects issuer
+roles, the issuer read through `Claims()` passes the validator of one of them. -/
+theorem gen_decode_accepts (opq : V2.Opq) (tok : Str) (c : V2.I_Claims)
+    (h : V2.Decode tok opq = some (some c, false)) :
+    ∃ hd p s hdr data sig ver,
+      splitOn '.' tok = [hd, p, s] ∧
+      opq.parseHeaders hd = some (hdr, false) ∧
+      opq.decodeString p = some (data, false) ∧
+      opq.loadClaims data = some (ver, some c, false) ∧
+      opq.decodeString s = some (sig, false) ∧
+      opq.Claims_verify c (if verUsed c hdr ver ≤ 1 then p else hd ++ '.' :: p) sig = true ∧
+      (match V2.I_Claims.ExpectedPrefixes c with
+       | some (some ps) => ps.any (prefixOk opq (viewOf c).issuer) = true
+       | _ => True) := by
+  unfold V2.Decode at h
+  have hs : GoRt.split tok ['.'] = splitOn '.' tok := rfl
+  simp only [hs] at h
+  rcases hsp : splitOn '.' tok with _ | ⟨hd, _ | ⟨p, _ | ⟨s, _ | ⟨d, l⟩⟩⟩⟩
+  · simp [hsp, len] at h
+  · simp [hsp, len] at h
+  · simp [hsp, len] at h
+  · have i0 : idx [hd, p, s] 0 = some hd := rfl
+    have i1 : idx [hd, p, s] 1 = some p := rfl
+    have i2 : idx [hd, p, s] 2 = some s := rfl
+    simp only [hsp, len, List.length_cons, List.length_nil, i0, i1, i2, Option.pure_def, Option.bind_eq_bind,
+      Option.bind_some] at h
+    rcases hph : opq.parseHeaders hd with _ | ⟨hdr, e1⟩
+    · simp [hph] at h
+    cases e1
+    case true => simp [hph] at h
+    rcases hdp : opq.decodeString p with _ | ⟨data, e2⟩
+    · simp [hph, hdp] at h
+    cases e2
+    case true => simp [hph, hdp] at h
+    rcases hlc : opq.loadClaims data with _ | ⟨ver, cl, e3⟩
+    · simp [hph, hdp, hlc] at h
+    cases e3
+    case true => simp [hph, hdp, hlc] at h
+    rcases hds : opq.decodeString s with _ | ⟨sig, e4⟩
+    · simp [hph, hdp, hlc, hds] at h
+    cases e4
+    case true => simp [hph, hdp, hlc, hds] at h
+    have h3 : ((((0 : Nat) + 1 + 1 + 1 : Nat) : Int) != 3) = false := by decide
+    simp only [h3, hph, hdp, hlc, hds, Option.bind_some, Bool.false_eq_true, if_false] at h
+    cases cl with
+    | none => simp at h
+    | some c' =>
+      have hslice : strSliceTo tok (strLen hd + strLen p + 1) = some (hd ++ '.' :: p) := by
+        have ht := token_of_chunks tok hd p s hsp
+        have hlen : strLen hd + strLen p + 1 = strLen (hd ++ '.' :: p) := by
+          simp [strLen, utf8Len, utf8Width]; omega
+        rw [hlen]
+        conv => lhs; rw [ht]
+        exact strSliceTo_prefix _ _
+      simp only [Option.bind_some, hslice] at h
+      cases c' with
+      | GenericClaims v =>
+        cases hdr with
+        | none => simp at h
+        | some hh =>
+          simp only [Option.isSome_some, if_true, Option.bind_some, V2.I_Claims.ExpectedPrefixes,
+            V2.GenericClaims_ExpectedPrefixes, Option.pure_def, Option.bind_eq_bind, Option.isSome_none,
+            Bool.false_eq_true, if_false, ite_some] at h
+          by_cases ha : (hh.f_Algorithm != ['e', 'd', '2', '5', '5', '1', '9']) = true
+          · have h2 : ¬ ((2 : Int) ≤ 1) := by omega
+            simp only [ha, if_true, h2, decide_false, Bool.false_eq_true, if_false] at h
+            split at h
+            · simp at h
+            · rename_i hV
+              simp only [Option.some.injEq, Prod.mk.injEq, and_true] at h
+              subst h
+              refine ⟨hd, p, s, some hh, data, sig, ver, rfl, hph, hdp, hlc, hds, ?_, ?_⟩
+              · have e : ("ed25519".toList : Str) = ['e', 'd', '2', '5', '5', '1', '9'] := by decide
+                simpa [verUsed, e, ha, h2] using hV
+              · simp [V2.I_Claims.ExpectedPrefixes, V2.GenericClaims_ExpectedPrefixes]
+          · have ha' : (hh.f_Algorithm != ['e', 'd', '2', '5', '5', '1', '9']) = false := by simpa using ha
+            simp only [ha', Bool.false_eq_true, if_false] at h
+            by_cases hv : ver ≤ 1
+            all_goals
+              simp only [hv, decide_true, decide_false, if_true, Bool.false_eq_true, if_false] at h
+              split at h
+              · simp at h
+              · rename_i hV
+                simp only [Option.some.injEq, Prod.mk.injEq, and_true] at h
+                subst h
+                refine ⟨hd, p, s, some hh, data, sig, ver, rfl, hph, hdp, hlc, hds, ?_, ?_⟩
+                · have e : ("ed25519".toList : Str) = ['e', 'd', '2', '5', '5', '1', '9'] := by decide
+                  simpa [verUsed, e, ha', hv] using hV
+                · simp [V2.I_Claims.ExpectedPrefixes, V2.GenericClaims_ExpectedPrefixes]
+      | _ =>
+        simp only [Option.isSome_none, Bool.false_eq_true, if_false, Option.bind_some, V2.I_Claims.ExpectedPrefixes,
+          V2.AccountClaims_ExpectedPrefixes, V2.OperatorClaims_ExpectedPrefixes, V2.UserClaims_ExpectedPrefixes,
+          V2.ActivationClaims_ExpectedPrefixes, V2.AuthorizationRequestClaims_ExpectedPrefixes,
+          V2.AuthorizationResponseClaims_ExpectedPrefixes, V2.I_Claims.Claims, V2.AccountClaims_Claims,
+          V2.OperatorClaims_Claims, V2.UserClaims_Claims, V2.ActivationClaims_Claims,
+          V2.AuthorizationRequestClaims_Claims, V2.AuthorizationResponseClaims_Claims, forRange, decode_loop,
+          Option.pure_def, Option.bind_eq_bind, Option.isSome_some, if_true, Bool.false_or] at h
+        by_cases hv : ver ≤ 1
+        all_goals
+          simp only [hv, decide_true, decide_false, if_true, Bool.false_eq_true, if_false] at h
+          split at h
+          · simp at h
+          · split at h
+            · simp at h
+            · rename_i hV hA
+              simp only [Option.some.injEq, Prod.mk.injEq, and_true] at h
+              subst h
+              refine ⟨hd, p, s, hdr, data, sig, ver, rfl, hph, hdp, hlc, hds, ?_, ?_⟩
+              · simpa [verUsed, hv] using hV
+              · simp only [Bool.not_eq_true', Bool.not_eq_false] at hA
+                simp only [V2.I_Claims.ExpectedPrefixes, V2.AccountClaims_ExpectedPrefixes, V2.OperatorClaims_ExpectedPrefixes,
+                  V2.UserClaims_ExpectedPrefixes, V2.ActivationClaims_ExpectedPrefixes,
+                  V2.AuthorizationRequestClaims_ExpectedPrefixes, V2.AuthorizationResponseClaims_ExpectedPrefixes,
+                  viewOf, Option.pure_def]
+                exact hA
+  · have hl : ¬ ((l.length : Int) + 1 + 1 + 1 + 1 = 3) := by omega
+    simp [hsp, len, hl] at h
+
+/-- non-vacuity: an environment in which the translated `Decode` accepts a token (so the hypothesis of
+`gen_decode_accepts` is satisfiable, and the conclusion's verification text is the `hd.p` one) -/
+def demoOpq : V2.Opq :=
+  { DecodeActivationClaims := fun _ => none, RenamingSubject_ToSubject := fun x => some x,
+    parseHeaders := fun _ => some (some { f_Type := "JWT".toList, f_Algorithm := "ed25519-nkey".toList }, false),
+    decodeString := fun _ => some ([], false),
+    loadClaims := fun _ => some (2, some (.AccountClaims default), false),
+    strconv_Atoi := fun _ => none, nkeys_IsValidPublicAccountKey := fun _ => true, url_Parse := fun _ => none,
+    nkeys_IsValidPublicUserKey := fun _ => false, nkeys_IsValidPublicCurveKey := fun _ => false,
+    nkeys_IsValidPublicServerKey := fun _ => false, time_Parse := fun _ _ => false, net_ParseCIDR := fun _ => false,
+    time_LoadLocation := fun _ => false, nkeys_IsValidPublicOperatorKey := fun _ => false,
+    Claims_verify := fun _ text _ => text == "a.b".toList }
+
+example : V2.Decode "a.b.c".toList demoOpq = some (some (.AccountClaims default), false) := by decide
+
 end Jwt.FnTie
